@@ -297,13 +297,18 @@ class CallbacksExecutor:
         insort(self.items, wrapper)
 
     async def async_call(self, *args, **kwargs):
-        return await asyncio.gather(
-            *(
-                callback(*args, **kwargs)
-                for callback in self
-                if callback.condition(*args, **kwargs)
-            )
-        )
+        tasks = [
+            asyncio.ensure_future(callback(*args, **kwargs))
+            for callback in self
+            if callback.condition(*args, **kwargs)
+        ]
+        try:
+            return await asyncio.gather(*tasks)
+        except BaseException:
+            # A callback failed: let the sibling callbacks of this group finish before
+            # propagating, so none of them is left running into whatever comes next.
+            await asyncio.gather(*tasks, return_exceptions=True)
+            raise
 
     async def async_all(self, *args, **kwargs):
         for condition in self:
